@@ -658,7 +658,7 @@ class _Rec(object):
     """A record whose verdict field is a concrete flag value."""
     def __init__(self, value, ident):
         self.value, self.ident, self.issues = value, ident, Flag(value)
-        self.other = {r: _Opaque('%s#%d' % (r, ident)) for r in ROLES}
+        self.other = {r: _Opaque('%s#%s' % (r, ident)) for r in ROLES}
 
 
 class _Opaque(object):
@@ -673,6 +673,12 @@ class _Gen(tuple):
 
 
 class _SelfObj(object):
+    """An instance of the class under evaluation; .records is its (mutable) record list."""
+    def __init__(self):
+        self.records = []
+
+
+class _Raised(Exception):
     pass
 
 
@@ -695,14 +701,46 @@ class RecFn(FlagFn):
         self.P = P
         self.sv = M.ci
         self.collattr = M.coll.split('.', 1)[1] if '.' in M.coll else None
-        self.records = []
         self.ys = None
         self.SELF = _SelfObj()
         self.fallback = {}          # selector name -> row table decided by the interpreter (used when its body is outside this language)
 
+    @property
+    def records(self):
+        return self.SELF.records
+
     def run(self, f, records):
-        self.records = list(records)
+        self.SELF.records = list(records)
         return self.method(f)
+
+    def run_binary(self, f, mine, theirs):
+        """Evaluate a binary method (self, other) with both operands instances of the class; returns (result, other object)."""
+        self.SELF.records = list(mine)
+        other = _SelfObj()
+        other.records = list(theirs)
+        if len(f.params) != 2:
+            raise _Unknown('signature of %s' % f.name)
+        return self.apply(_Bound(f), [other]), other
+
+    def stmt(self, st, env, f):
+        if isinstance(st, ast.Raise):
+            raise _Raised(ast.unparse(st))
+        if isinstance(st, ast.Assign) and len(st.targets) == 1 and isinstance(st.targets[0], ast.Attribute):
+            base = self.ev(st.targets[0].value, env, f)
+            if isinstance(base, _SelfObj) and st.targets[0].attr == self.collattr:
+                v = self.ev(st.value, env, f)
+                if not isinstance(v, list):
+                    v = list(self.iterable(v))
+                base.records = v
+                return
+            raise _Unknown('store to %s' % ast.unparse(st.targets[0]))
+        if isinstance(st, ast.AugAssign) and isinstance(st.op, ast.Add):
+            cur = self.ev(ast.Attribute(value=st.target.value, attr=st.target.attr, ctx=ast.Load()) if isinstance(st.target, ast.Attribute)
+                          else ast.Name(id=st.target.id, ctx=ast.Load()) if isinstance(st.target, ast.Name) else st.target, env, f)
+            if isinstance(cur, list):
+                cur.extend(self.iterable(self.ev(st.value, env, f)))       # list += iterable mutates the list in place (aliases see it)
+                return
+        return FlagFn.stmt(self, st, env, f)
 
     def method(self, f):
         if self.depth > 4:
@@ -743,6 +781,10 @@ class RecFn(FlagFn):
             d = dotted(n)
             if not (d is not None and d.split('.')[-2:-1] == [self.ci.name]):
                 base = self.ev(n.value, env, f)
+                if isinstance(base, _SelfObj) and base is not self.SELF:
+                    if n.attr == self.collattr:
+                        return base.records
+                    raise _Unknown('attribute of the other operand: %s' % n.attr)
                 if base is self.SELF:
                     if n.attr == self.collattr:
                         return self.records
@@ -830,6 +872,37 @@ class RecFn(FlagFn):
                     raise _Unknown('call %s' % ast.unparse(n))
             if isinstance(n.func, ast.Name) and isinstance(env.get(n.func.id), (_Bound, _Lam)):
                 return self.apply(env[n.func.id], [self.ev(a, env, f) for a in n.args])
+        if isinstance(n, ast.Call) and isinstance(n.func, ast.Attribute) and n.func.attr in ('extend', 'append', 'insert', 'copy', 'clear') and not n.keywords:
+            base = self.ev(n.func.value, env, f)
+            if isinstance(base, list) and not isinstance(base, _Gen):
+                args = [self.ev(a, env, f) for a in n.args]
+                if n.func.attr == 'extend' and len(args) == 1:
+                    base.extend(self.iterable(args[0]))
+                    return None
+                if n.func.attr == 'append' and len(args) == 1:
+                    base.append(args[0])
+                    return None
+                if n.func.attr == 'insert' and len(args) == 2 and isinstance(args[0], int):
+                    base.insert(args[0], args[1])
+                    return None
+                if n.func.attr == 'copy' and not args:
+                    return list(base)
+                if n.func.attr == 'clear' and not args:
+                    del base[:]
+                    return None
+        if isinstance(n, ast.Call) and not n.keywords and dotted(n.func) == 'isinstance' and len(n.args) == 2:
+            v = self.ev(n.args[0], env, f)
+            c = self.ev(n.args[1], env, f)
+            if isinstance(v, _SelfObj) and c is self.sv:
+                return True
+            raise _Unknown(ast.unparse(n))
+        if isinstance(n, ast.List):
+            return [self.ev(e, env, f) for e in n.elts]
+        if isinstance(n, ast.BinOp) and isinstance(n.op, ast.Add):
+            l, r = self.ev(n.left, env, f), self.ev(n.right, env, f)
+            if isinstance(l, list) and isinstance(r, list):
+                return list(l) + list(r)
+            return self.binop(n.op, l, r)
         if isinstance(n, ast.Lambda):
             return _Lam(n, dict(env), f)
         if isinstance(n, ast.Name) and n.id == self.sv.name and n.id not in env:
@@ -984,6 +1057,29 @@ def _concrete_bool(E, P, f):
     return tbl
 
 
+def _concrete_and(E, P, f):
+    """__and__ on record lists of size 0..2 on both sides: the result must be the receiver, holding its records followed by those
+    of the other operand.  None when that holds everywhere, else a description of the first counter-example."""
+    vals = _values(P)[:2] or [0]
+    lists = [(), (vals[0],), (vals[0], vals[-1])]
+    for A in lists:
+        for B in lists:
+            mine = [_Rec(v, 'a%d' % i) for i, v in enumerate(A)]
+            theirs = [_Rec(v, 'b%d' % i) for i, v in enumerate(B)]
+            scen = '%d own record(s) & %d record(s) of the other' % (len(A), len(B))
+            try:
+                res, other = E.run_binary(f, mine, theirs)
+            except _Raised as ex:
+                return '%s: raises %s' % (scen, ex)
+            if res is not E.SELF:
+                return '%s: returns %s, not the receiver' % (scen, 'the other operand' if res is other else repr(res))
+            got = [getattr(r, 'ident', '?') for r in E.SELF.records]
+            want = [r.ident for r in mine + theirs]
+            if got != want:
+                return '%s: the result holds %s, expected %s' % (scen, got, want)
+    return None
+
+
 def check_partition(rep, prog, rid):
     M = record_model(prog)
     ci = M.ci
@@ -1038,6 +1134,15 @@ def check_partition(rep, prog, rid):
     p = f.params
     if len(p) != 2:
         raise AnalysisError('SignatureVerification.__and__ no longer takes one operand')
+    try:
+        why = _concrete_and(E, P, f)
+    except _Unknown:
+        why = False
+    if why is not False:
+        rep.check(why is None, rid, 'SignatureVerification.__and__', 'self._subjects += other._subjects',
+                  'combining two results must keep the records of both (and return the combined object)', where=f.where,
+                  expected='the receiver, holding its records followed by those of the other operand', found=why)
+        return
     mine = M.coll.replace(M.f.params[0] + '.', p[0] + '.', 1)
     theirs = M.coll.replace(M.f.params[0] + '.', '<other>.', 1)
     outs = Interp(prog, Scenario(args={p[1]: Sym('<other>', types={'SignatureVerification'}, nonnull=True)}, inline=noinline)).run(f)
